@@ -437,7 +437,9 @@ func vfC12(w *vfWorld) {
 			}
 		}
 		if stale && canRefresh && cs.Store == "cookie" {
-			if len(refreshCalls) != 1 || !results[0].served || results[0].gen != 1 {
+			// (a request the scheduler held back for the 30 s upstream timeout is answered 502: not a verdict on the session)
+			timedOut := results[0].resp != nil && (results[0].resp.Status == 502 || results[0].resp.Status == 504)
+			if len(refreshCalls) != 1 || (!timedOut && (!results[0].served || results[0].gen != 1)) {
 				w.violate("C12", "cookie-store-refresh", "", "single stale request: refresh calls=%d served=%v gen=%d", len(refreshCalls), results[0].served, results[0].gen)
 			}
 		}
